@@ -38,8 +38,8 @@ type dCIDR struct {
 	Text string `json:"text,omitempty"`
 	Addr string `json:"addr,omitempty"` // canonical textual address the text denotes
 	Bits int    `json:"bits,omitempty"`
-	V4   bool   `json:"v4,omitempty"`    // IPv4 or IPv4-mapped
-	Host bool   `json:"host,omitempty"`  // host bits set (not a canonical CIDR)
+	V4   bool   `json:"v4,omitempty"`   // IPv4 or IPv4-mapped
+	Host bool   `json:"host,omitempty"` // host bits set (not a canonical CIDR)
 }
 
 type dPrefix struct {
@@ -162,7 +162,7 @@ type tw struct {
 	indent string
 }
 
-func (w *tw) kv(k, v string)        { fmt.Fprintf(&w.b, "%s%s = %s\n", w.indent, k, v) }
+func (w *tw) kv(k, v string) { fmt.Fprintf(&w.b, "%s%s = %s\n", w.indent, k, v) }
 func (w *tw) str(k string, s *string) {
 	if s != nil {
 		w.kv(k, tq(*s))
@@ -398,8 +398,10 @@ type refResult struct {
 	Cfg     rConfig
 }
 
-func (r *refResult) reject(format string, a ...any) { r.Reasons = append(r.Reasons, fmt.Sprintf(format, a...)) }
-func (r *refResult) unspec(what string)            { r.Unspec = append(r.Unspec, what) }
+func (r *refResult) reject(format string, a ...any) {
+	r.Reasons = append(r.Reasons, fmt.Sprintf(format, a...))
+}
+func (r *refResult) unspec(what string) { r.Unspec = append(r.Unspec, what) }
 
 const infNS = int64(ndp.Infinity)
 
@@ -924,8 +926,23 @@ func (g *vg) optBool(label string) *bool {
 // spell renders ns exactly in one of several spellings.
 func (g *vg) spell(ns int64) string {
 	d := time.Duration(ns)
-	k := rapid.IntRange(0, 3).Draw(g.t, "spelling")
+	k := rapid.IntRange(0, 9).Draw(g.t, "spelling")
+	h, mn, sec := int64(time.Hour), int64(time.Minute), int64(time.Second)
 	switch {
+	case k == 4 && ns > 0 && ns%(h/10) == 0 && ns/h < 1<<20:
+		// tenths of an hour: h/10 is a whole number of nanoseconds, so the fraction is exact
+		return fmt.Sprintf("%d.%dh", ns/h, ns%h/(h/10))
+	case k == 5 && ns >= 0:
+		return "+" + d.String()
+	case k == 6 && ns%int64(time.Microsecond) == 0 && ns/int64(time.Microsecond) < 1<<40:
+		return fmt.Sprintf("%d%s", ns/int64(time.Microsecond), rapid.SampledFrom([]string{"us", "µs", "μs"}).Draw(g.t, "micro"))
+	case k == 7 && ns >= 0 && ns%sec == 0:
+		return fmt.Sprintf("%04ds", ns/sec)
+	case k == 8 && ns > 0 && ns%sec == 0 && ns/h < 1<<20:
+		// the units of a duration string may come in any order and may repeat
+		return fmt.Sprintf("%ds%dm%dh", ns%mn/sec, ns%h/mn, ns/h)
+	case k == 9 && ns >= 0 && ns%(sec/4) == 0 && ns/sec < 1<<30:
+		return fmt.Sprintf("%d.%02ds", ns/sec, ns%sec/(sec/100))
 	case k == 1 && ns%int64(time.Second) == 0:
 		return fmt.Sprintf("%ds", ns/int64(time.Second))
 	case k == 2 && ns%int64(time.Millisecond) == 0 && ns/int64(time.Millisecond) < 1<<40:
@@ -1015,6 +1032,9 @@ func (g *vg) cidrBad(label string, wildcardOther string) dCIDR {
 		return dCIDR{Kind: "value", Text: "2001:db8::/128", Addr: "2001:db8::", Bits: 128}
 	case 5:
 		bits := rapid.SampledFrom([]int{1, 48, 56, 63, 65, 96, 128}).Draw(g.t, label+":wbits")
+		if g.chance(label+":wbitsany", 1, 2) {
+			bits = rapid.IntRange(1, 128).Draw(g.t, label+":wbitsv")
+		}
 		return dCIDR{Kind: "value", Text: fmt.Sprintf("::/%d", bits), Addr: "::", Bits: bits}
 	default:
 		a, b, _ := strings.Cut(wildcardOther, "/")
@@ -1208,7 +1228,14 @@ func (g *vg) genPREF64(i int) dPREF64 {
 		case 2:
 			return dPREF64{dCIDR{Kind: "value", Text: "10.0.0.0/32", Addr: "10.0.0.0", Bits: 32, V4: true}}
 		case 3:
-			bits := rapid.SampledFrom([]int{0, 31, 33, 63, 65, 95, 97, 104, 128}).Draw(g.t, l+":bits")
+			// any length that is not one of the six NAT64 sizes
+			bits := rapid.IntRange(0, 128).Draw(g.t, l+":bits")
+			for bits == 96 || bits == 64 || bits == 56 || bits == 48 || bits == 40 || bits == 32 {
+				bits += 8 * rapid.IntRange(1, 3).Draw(g.t, l+":off")
+				if bits > 128 {
+					bits = 72
+				}
+			}
 			p := netip.PrefixFrom(netip.MustParseAddr("64:ff9b::"), bits).Masked()
 			return dPREF64{dCIDR{Kind: "value", Text: p.String(), Addr: p.Addr().String(), Bits: bits}}
 		default:
@@ -1336,8 +1363,17 @@ func (g *vg) genIface(i int, used map[string]bool, forceAdvertise bool) dIface {
 	ifi.RetransmitTimer = g.genDur(l+":retrans", 0, int64(time.Hour), []string{"empty"}, true)
 	if !g.chance(l+":hop?", 1, 2) {
 		v := rapid.SampledFrom([]int64{0, 1, 64, 128, 254, 255}).Draw(g.t, l+":hop")
+		if g.chance(l+":hopany", 1, 2) {
+			v = rapid.Int64Range(0, 255).Draw(g.t, l+":hopv")
+		}
 		if g.bad(l + ":hop") {
 			v = rapid.SampledFrom([]int64{-1, 256, 257, 1000, -255, 65536}).Draw(g.t, l+":badhop")
+			if g.chance(l+":badhopany", 1, 2) {
+				v = rapid.Int64Range(256, 1<<33).Draw(g.t, l+":badhopv")
+				if g.chance(l+":badhopneg", 1, 2) {
+					v = -v + 255
+				}
+			}
 		}
 		ifi.HopLimit = &v
 	}
@@ -1349,8 +1385,17 @@ func (g *vg) genIface(i int, used map[string]bool, forceAdvertise bool) dIface {
 	ifi.Preference = g.genPref(l)
 	if !g.chance(l+":mtu?", 2, 3) {
 		v := rapid.SampledFrom([]int64{0, 1, 1280, 1500, 9000, 65535, 65536}).Draw(g.t, l+":mtu")
+		if g.chance(l+":mtuany", 1, 2) {
+			v = rapid.Int64Range(0, 65536).Draw(g.t, l+":mtuv")
+		}
 		if g.bad(l + ":mtu") {
 			v = rapid.SampledFrom([]int64{-1, 65537, 100000, -1500}).Draw(g.t, l+":badmtu")
+			if g.chance(l+":badmtuany", 1, 2) {
+				v = rapid.Int64Range(65537, 1<<33).Draw(g.t, l+":badmtuv")
+				if g.chance(l+":badmtuneg", 1, 2) {
+					v = -v + 65536
+				}
+			}
 		}
 		ifi.MTU = &v
 	}
